@@ -129,6 +129,7 @@ func (s *vfSession) forgeStep(x *vfSide) { //nolint:cyclop,maintidx
 	outstandingDst := netip.AddrPort{}
 	outstandingSock := netip.AddrPort{}
 	txKind := "fresh"
+	txOldGen := false
 	pickTx := func(match func(d *vfDgram) bool) bool {
 		var cands []*vfDgram
 		for _, d := range s.sw.wireFrom(0) {
@@ -146,6 +147,7 @@ func (s *vfSession) forgeStep(x *vfSide) { //nolint:cyclop,maintidx
 		}
 		tx = m.TransactionID
 		outstandingDst, outstandingSock = d.Dst, d.SrcPriv
+		txOldGen = x.gen > 0 && d.Step <= x.restartedAt // the request was sent in a generation ended by Restart
 
 		return true
 	}
@@ -153,7 +155,6 @@ func (s *vfSession) forgeStep(x *vfSide) { //nolint:cyclop,maintidx
 	for _, t := range sn.Pending {
 		pendingSet[t] = true
 	}
-	curAuth := fmt.Sprintf("%s.g%d", peer.name, peer.gen)
 	switch f.Tx {
 	case "outstanding":
 		if pickTx(func(d *vfDgram) bool { return pendingSet[d.Stun.TxID] }) {
@@ -177,13 +178,21 @@ func (s *vfSession) forgeStep(x *vfSide) { //nolint:cyclop,maintidx
 			}
 		}
 	case "answered":
-		if pickTx(func(d *vfDgram) bool { return !pendingSet[d.Stun.TxID] && d.Stun.AuthBy == curAuth }) {
+		if pickTx(func(d *vfDgram) bool { return !pendingSet[d.Stun.TxID] && !(x.gen > 0 && d.Step <= x.restartedAt) }) {
 			txKind = "answered"
 		}
 	case "oldgen":
-		if pickTx(func(d *vfDgram) bool { return d.Stun.AuthBy != curAuth }) {
+		// "old generation" is relative to the RECEIVER's own Restart: its transactions were wiped then
+		if pickTx(func(d *vfDgram) bool { return x.gen > 0 && d.Step <= x.restartedAt }) {
 			txKind = "oldgen"
+			if f.Kind == "success" && rng.IntN(2) == 0 {
+				// a correctly signed answer to a request of the ended generation, from where that request went
+				f.Key, src, f.Src = "correct", outstandingDst, "request-destination"
+			}
 		}
+	}
+	if txOldGen && txKind == "outstanding" {
+		txKind = "oldgen" // still listed as outstanding although its generation ended: must be inert all the same
 	}
 	f.Tx = txKind
 	// build
@@ -464,7 +473,25 @@ func vfC02Run(e *vfEnv, r *vfResult, idx int) {
 		for _, x := range s.sides() {
 			x.oldUfrag, x.oldPwd = x.ufrag, x.pwd
 		}
-		np, err := s.coordinatedRestart(t, s.rng.IntN(6))
+		var np []vfPendingSignal
+		var err error
+		if s.rng.IntN(2) == 0 {
+			np, err = s.coordinatedRestart(t, s.rng.IntN(6))
+		} else {
+			// one-sided: only A starts a new generation; B keeps its sockets, credentials and candidates, which A is told again
+			s.desc["restart"] = "one-sided (A)"
+			s.B.oldUfrag, s.B.oldPwd = "", "" // B's generation continues: it has no ended credentials
+			s.restartStep(s.A)
+			if err = s.A.gather(); err == nil {
+				err = s.A.a.SetRemoteCredentials(s.B.ufrag, s.B.pwd)
+			}
+			if err == nil {
+				err = s.B.a.SetRemoteCredentials(s.A.ufrag, s.A.pwd)
+			}
+			if err == nil {
+				np, err = s.signalList(t)
+			}
+		}
 		if err == nil {
 			pending = np
 			for i := 0; i < 4; i++ {
